@@ -25,6 +25,9 @@ func typeGraphDocs(stride int, fn func(name, text string)) int {
 		func(x, y, z string) string { return "TYPE " + x + " regex\n  /a+/\n" },
 		func(x, y, z string) string { return "TYPE " + x + "\n{ // {allOf: \"" + y + "\"}\n  \"own" + x[1:] + "\": 1\n}\n" },
 		func(x, y, z string) string { return "TYPE " + x + "\n{\n  \"k\": 1 // {or: [\"" + y + "\", \"" + z + "\"]}\n}\n" },
+		// the root of the type is another type, or the type itself, made finite by "nullable"
+		func(x, y, z string) string { return "TYPE " + x + "\n  " + y + " // {nullable: true}\n" },
+		func(x, y, z string) string { return "TYPE " + x + "\n  " + x + " // {nullable: true}\n" },
 	}
 	consumers := []string{
 		"",
@@ -34,6 +37,8 @@ func typeGraphDocs(stride int, fn func(name, text string)) int {
 		"POST /x\n  Request\n    Headers @a\n    Body [@a]\n  200 any\n",
 		"GET /x\n  Query\n  {\"q\": @a}\n  200\n  {\"r\": @a | @b}\n",
 		"URL /r\n  Protocol json-rpc-2.0\n  Method m\n    Params @a\n    Result\n    [@b, @c]\n",
+		"GET /x\n  200 any\n    Headers\n      @a\n",
+		"GET /x/{id}\n  Path\n    @a\n  200 any\n",
 	}
 	names := []string{"@a", "@b", "@c"}
 	n, k := 0, 0
